@@ -295,12 +295,16 @@ m_bytesio.always = True
 def m_from_bytes(ctx, args, kw):
     b = simplify_native(args[0])
     order = args[1] if len(args) > 1 else kw.get("byteorder", "big")
-    if kw.get("signed"):
-        raise Undecided("signed from_bytes")
     if hasattr(b, "sym_from_bytes"):
+        if kw.get("signed"):
+            raise Undecided("signed from_bytes")
         return b.sym_from_bytes(ctx, order)
     r = as_rope(b)
-    return r.be() if order == "big" else r.le()
+    v = r.be() if order == "big" else r.le()
+    if kw.get("signed") and len(r):
+        n = len(r)
+        v = simplify_native(L.ite(v >= 2 ** (8 * n - 1), v - 2 ** (8 * n), v))
+    return v
 
 
 @nmodel((bytes, "fromhex"))
@@ -880,3 +884,128 @@ def _exc_attr(name):
 
 
 ATTR_MODELS["exception"] = {n: _exc_attr(n) for n in ("strerror", "errno", "filename", "args", "msg", "message", "code")}
+
+
+# ------------------------------------------------------------------ struct (fixed-size integer / bytes layouts over ropes)
+import struct as _struct
+import re as _re
+
+_STRUCT_INT = {"B": (1, False), "b": (1, True), "H": (2, False), "h": (2, True), "I": (4, False), "i": (4, True),
+               "L": (4, False), "l": (4, True), "Q": (8, False), "q": (8, True)}
+
+
+def _struct_fields(fmt):
+    fmt = simplify_native(fmt)
+    if isinstance(fmt, (bytes, bytearray)):
+        fmt = fmt.decode()
+    if not isinstance(fmt, str) or not fmt or fmt[0] not in "<>!":
+        raise Undecided("struct format without explicit byte order / standard sizes")
+    little = fmt[0] == "<"
+    out = []
+    for cnt, code in _re.findall(r"(\d*)([A-Za-z?])", fmt[1:].replace(" ", "")):
+        n = int(cnt) if cnt else 1
+        if code == "s":
+            out.append(("s", n, False))
+        elif code == "x":
+            out.append(("x", n, False))
+        elif code in _STRUCT_INT:
+            out += [(code, _STRUCT_INT[code][0], _STRUCT_INT[code][1])] * n
+        else:
+            raise Undecided("struct format code " + code)
+    return little, out, _struct.calcsize(fmt)
+
+
+def _struct_unpack(ctx, fmt, data):
+    little, fields, size = _struct_fields(fmt)
+    try:
+        r = as_rope(simplify_native(data))
+    except TypeError:
+        raise Undecided("struct.unpack of data of symbolic length")
+    if len(r) != size:
+        raise PyRaise(_struct.error, "unpack requires a buffer of %d bytes" % size)
+    out, pos = [], 0
+    for code, n, signed in fields:
+        seg = r.slice(pos, pos + n)
+        pos += n
+        if code == "x":
+            continue
+        if code == "s":
+            out.append(seg)
+            continue
+        v = seg.le() if little else seg.be()
+        if signed:
+            v = simplify_native(L.ite(v >= 2 ** (8 * n - 1), v - 2 ** (8 * n), v))
+        out.append(v)
+    return tuple(out)
+
+
+def _struct_pack(ctx, fmt, vals):
+    little, fields, size = _struct_fields(fmt)
+    vals = list(vals)
+    segs = Rope()
+    for code, n, signed in fields:
+        if code == "x":
+            segs = segs + Rope.of(bytes(n))
+            continue
+        if not vals:
+            raise PyRaise(_struct.error, "pack expected more items")
+        v = simplify_native(vals.pop(0))
+        if code == "s":
+            b = as_rope(v)
+            if len(b) != n:
+                raise Undecided("struct 's' field with a value of another length (padding/truncation)")
+            segs = segs + b
+            continue
+        lo, hi = (-(2 ** (8 * n - 1)), 2 ** (8 * n - 1)) if signed else (0, 2 ** (8 * n))
+        if not ctx.branch(L.land(lo <= v, v < hi) if is_sym(v) else (lo <= v < hi)):
+            raise PyRaise(_struct.error, "argument out of range")
+        if signed:
+            v = simplify_native(L.ite(v < 0, v + 2 ** (8 * n), v))
+        segs = segs + Rope([(v, n, little)])
+    if vals:
+        raise PyRaise(_struct.error, "pack expected fewer items")
+    return segs
+
+
+def m_struct_unpack(ctx, args, kw):
+    return _struct_unpack(ctx, args[0], args[1])
+m_struct_unpack.always = True
+
+
+def m_struct_pack(ctx, args, kw):
+    return _struct_pack(ctx, args[0], args[1:])
+m_struct_pack.always = True
+
+
+def m_struct_calcsize(ctx, args, kw):
+    return _struct_fields(args[0])[2]
+
+
+def m_struct_Struct(ctx, args, kw):
+    fmt = args[0] if args else kw["format"]
+    return ModelObj("Struct", fmt=simplify_native(fmt))
+m_struct_Struct.always = True
+
+
+NATIVE_MODELS[_struct.unpack] = m_struct_unpack
+NATIVE_MODELS[_struct.pack] = m_struct_pack
+NATIVE_MODELS[_struct.Struct] = m_struct_Struct
+ATTR_MODELS["Struct"] = {
+    "size": lambda ctx, o: _struct_fields(o.f["fmt"])[2],
+    "format": lambda ctx, o: o.f["fmt"],
+    "unpack": lambda ctx, o: (lambda data: _struct_unpack(ctx, o.f["fmt"], data)),
+    "pack": lambda ctx, o: (lambda *vals: _struct_pack(ctx, o.f["fmt"], vals)),
+}
+
+
+def _native_struct_attr(name):
+    """methods of a REAL struct.Struct object (module-level constant of the repository) called on symbolic data"""
+    def m(ctx, selfv, args, kw):
+        if name == "unpack":
+            return _struct_unpack(ctx, selfv.format, args[0])
+        return _struct_pack(ctx, selfv.format, args)
+    return m
+
+
+NATIVE_MODELS[(_struct.Struct, "unpack", "inst")] = _native_struct_attr("unpack")
+NATIVE_MODELS[(_struct.Struct, "pack", "inst")] = _native_struct_attr("pack")
